@@ -431,7 +431,22 @@ def check_property(prop, tier='quick', seed=0, only=None):
             handle_refuted(res, rec, it, known)
     # bounded tier
     if hasattr(mod, 'bounded') and not only:
-        b = mod.bounded(tier, seed)
+        extra_seeds = []
+        if tier == 'thorough':
+            n = int(os.environ.get('PYVC_THOROUGH_SEEDS', '8'))
+            extra_seeds = [seed + 1000 * i for i in range(1, n)]
+        if extra_seeds:
+            # thorough: the same bounded exploration with further seeds, in parallel processes (the seeded-random parts differ per seed, the
+            # exhaustive parts are repeated); results are merged, distinct cases are counted over the union of the per-run key digests
+            import multiprocessing
+            ctx = multiprocessing.get_context('fork')
+            with ctx.Pool(min(len(extra_seeds) + 1, max(2, (os.cpu_count() or 4) // 2))) as pool:
+                allseeds = [seed] + extra_seeds
+                runs = pool.map(_bounded_worker, [(prop, tier, sd, (i, len(allseeds))) for i, sd in enumerate(allseeds)])
+            b = merge_bounded(runs, [seed] + extra_seeds)
+        else:
+            b = mod.bounded(tier, seed)
+            b.pop('distinct_keys', None)
         res.bounded = b
         nb = 0
         for v in b.get('violations', []):
@@ -444,6 +459,49 @@ def check_property(prop, tier='quick', seed=0, only=None):
     res.assumptions = list(getattr(mod, 'ASSUMPTIONS', []))
     res.wall = time.time() - t0
     return res, mod
+
+
+def _bounded_worker(args):
+    prop, tier, sd, part = args
+    import importlib
+    import inspect
+    mod = importlib.import_module('contracts.%s' % prop)
+    try:
+        if 'part' in inspect.signature(mod.bounded).parameters:
+            # the module partitions its exhaustive enumeration over the parallel runs itself: run i of n takes every n-th case
+            return mod.bounded(tier, sd, part=part)
+        return mod.bounded(tier, sd)
+    except Exception as e:
+        import traceback
+        return dict(evaluations=0, distinct_nontrivial=0, distinct_keys=[], rule='', samples=[], violations=[],
+                    crashed='seed %d: %s: %s\n%s' % (sd, type(e).__name__, e, traceback.format_exc()[-1500:]))
+
+
+def merge_bounded(runs, seeds):
+    crashed = [r['crashed'] for r in runs if r.get('crashed')]
+    if crashed:
+        raise CheckerDefect('bounded tier crashed: ' + crashed[0])
+    b = dict(runs[0])
+    keys = set()
+    have_keys = all('distinct_keys' in r for r in runs)
+    for r in runs:
+        keys.update(r.get('distinct_keys', []))
+    b['evaluations'] = sum(int(r.get('evaluations', 0)) for r in runs)
+    b['distinct_nontrivial'] = len(keys) if have_keys else max(int(r.get('distinct_nontrivial', 0)) for r in runs)
+    b['exhaustive'] = all(bool(r.get('exhaustive', False)) for r in runs)
+    b['rule'] = (runs[0].get('rule', '') + ' | thorough: %d runs of this exploration with seeds %r in parallel; evaluations are summed, distinct cases counted '
+                 'over the union of the per-run case keys' % (len(runs), seeds))
+    seen, viols = set(), []
+    for r in runs:
+        for v in r.get('violations', []):
+            if v.get('key') not in seen:
+                seen.add(v.get('key'))
+                viols.append(v)
+    b['violations'] = viols
+    b['samples'] = [s for r in runs for s in r.get('samples', [])[:2]][:8]
+    b.pop('distinct_keys', None)
+    b['seeds'] = list(seeds)
+    return b
 
 
 def lost_by_code_change(res, full, it, eng):
